@@ -4,6 +4,7 @@ package registry
 
 import (
 	"context"
+	"reflect"
 
 	"github.com/thushan/olla/internal/core/domain"
 )
@@ -14,11 +15,15 @@ func (r *UnifiedMemoryModelRegistry) VerifUnifyNow(ctx context.Context, endpoint
 	r.unifyModelsAsync(ctx, endpointURL, models)
 }
 
-// VerifUnifyIdle reports whether no unification task currently holds the unification mutex.
+// VerifUnifyIdle reports whether no unification task currently holds the unification mutex and no accepted listing is
+// still waiting to be unified (the outstanding-listings map, looked up by name so that a registry without it still builds).
 func (r *UnifiedMemoryModelRegistry) VerifUnifyIdle() bool {
-	if r.unificationMutex.TryLock() {
-		r.unificationMutex.Unlock()
-		return true
+	if !r.unificationMutex.TryLock() {
+		return false
 	}
-	return false
+	r.unificationMutex.Unlock()
+	if f := reflect.ValueOf(r).Elem().FieldByName("latestListings"); f.IsValid() && f.Kind() == reflect.Map {
+		return f.Len() == 0
+	}
+	return true
 }
